@@ -134,14 +134,18 @@ Definition run_query (e : entry) (s : st) : st :=
         (admitted s) (nser s) w.
 
 (* ---------- CancelQuery ---------- *)
+(* isCancelled := true; then, with waitingQueriesLock held, the first entry with this qid is taken
+   out of waitingQueries and CANCELLED is sent: on a full channel the sender blocks *)
+Definition cancel_entry (e : entry) : entry :=
+  if has_room e then push CANCELLED (set_cancelled e) else set_cancelled e.
+
 Definition cancel (q : N) (s : st) : st :=
   match lookup q (running s) with
   | None => s
   | Some e =>
     let '(rm, wq) := remove_first q (waiting s) in
-    let '(e2, w) := send_locked CANCELLED (set_cancelled e, false) in
-    mkS (upd_qid q (fun _ => e2) (running s)) wq (watchers s) (opt_cons rm (dead s))
-        (admitted s) (nser s) w
+    mkS (upd_qid q cancel_entry (running s)) wq (watchers s) (opt_cons rm (dead s))
+        (admitted s) (nser s) (negb (has_room e))
   end.
 
 (* executor-side send (no lock held): when the channel is full the sender waits; modelled as
